@@ -9,7 +9,18 @@ Definition pins : list string := ["usim/_basics/pipe.py:Pipe.__init__";
   "usim/_basics/pipe.py:Pipe._throttle_subscribers";
   "usim/_basics/pipe.py:UnboundedPipe.__init__";
   "usim/_basics/pipe.py:UnboundedPipe.transfer";
-  "usim/_basics/pipe.py:<module>"].
+  "usim/_basics/pipe.py:<module>";
+  "usim/_primitives/notification.py:<module>";
+  "usim/_primitives/notification.py:Notification.<attrs>";
+  "usim/_primitives/notification.py:Notification.__await__";
+  "usim/_primitives/notification.py:Notification.__awake_all__";
+  "usim/_primitives/notification.py:Notification.__del__";
+  "usim/_primitives/notification.py:Notification.__init__";
+  "usim/_primitives/notification.py:Notification.__subscribe__";
+  "usim/_primitives/notification.py:Notification.__subscription__";
+  "usim/_primitives/notification.py:Notification.__unsubscribe__";
+  "usim/_primitives/notification.py:postpone";
+  "usim/_primitives/notification.py:suspend"].
 (** the functions the model of C13 was transcribed from are unchanged in /repo *)
 Lemma src_unchanged : forallb pin_ok pins = true.
 Proof. vm_compute. reflexivity. Qed.
